@@ -676,7 +676,7 @@ struct Ctx {
 
 impl Gen {
     fn atom(&mut self) -> R {
-        match self.rng.below(24) {
+        match self.rng.below(25) {
             0..=4 => R::Lit('a'),
             5..=7 => R::Lit('b'),
             8..=10 => R::Any,
@@ -690,7 +690,9 @@ impl Gen {
             20 => R::AnyNegS,
             21 => R::LitNegI('a'),
             22 => R::Lit('\n'),
-            _ => R::LitCi('é'),
+            23 => R::LitCi('é'),
+            // a titlecase letter: neither lowercase nor uppercase, but it has both case variants
+            _ => R::LitCi('\u{1c5}'),
         }
     }
 
@@ -927,7 +929,7 @@ fn texts() -> Vec<String> {
         out.extend(next.iter().cloned());
         layer = next;
     }
-    for t in ["ab\nab", "A", "aA", "Ab", "BA", "É", "aÉ", "a\nb", "\n", "a\n", "\na", "ab\n", "a\n\nb", "A\nb", "b\na\n"] {
+    for t in ["ab\nab", "A", "aA", "Ab", "BA", "É", "aÉ", "a\nb", "\n", "a\n", "\na", "ab\n", "a\n\nb", "A\nb", "b\na\n", "\u{1c6}", "\u{1c4}a", "a\u{1c5}", "\u{1c6}b\u{1c4}"] {
         out.push(t.into());
     }
     out.push("aabbaabb".into());
